@@ -1,7 +1,7 @@
 (* C01 correspondence: cases carry the implementation's canonicalised outputs; `mism` lists the
    indices on which the model disagrees. *)
 From Coq Require Import ZArith List Bool.
-Require Import SkV.Lib.Base SkV.Lib.ZRange SkV.C01.Model.
+Require Import SkV.Lib.Base SkV.Lib.ZRange SkV.C01.Model SkV.C01.Model2.
 Import ListNotations.
 Open Scope Z_scope.
 
@@ -21,7 +21,14 @@ Inductive case :=
   | CCutoff (n : Z) (fh : list Z) (w : Z) (cutoffs : list Z) (o : impl_out)
   | CTtsSize (n : Z) (te tr : option Z) (o : option (list Z * list Z))
   | CTtsFh (n : Z) (fh : list Z) (o : option (list Z * list Z))
-  | CTtsFhAbs (lo n : Z) (fh : list Z) (o : option (list Z * list Z)).
+  | CTtsFhAbs (lo n : Z) (fh : list Z) (o : option (list Z * list Z))
+  (* cutoffs in any order (possibly none) *)
+  | CCutoffAny (n : Z) (fh : list Z) (w : Z) (cutoffs : list Z) (o : impl_out)
+  (* horizon form with exogenous data: ((y_train, y_test), (X_train, X_test)) *)
+  | CTtsFhX (lo n : Z) (rel : bool) (fh : list Z)
+            (o : option ((list Z * list Z) * (list Z * list Z)))
+  (* any combination of horizon and size arguments *)
+  | CTts (lo n : Z) (fh : option (bool * list Z)) (te tr : option Z) (o : option (list Z * list Z)).
 
 Definition agree (m : res (list split)) (mc : list Z) (o : impl_out) : bool :=
   match m, o with
@@ -37,6 +44,14 @@ Definition agree2 (m : res (list Z * list Z)) (o : option (list Z * list Z)) : b
   | _, _ => false
   end.
 
+Definition agree4 (m : res ((list Z * list Z) * (list Z * list Z)))
+  (o : option ((list Z * list Z) * (list Z * list Z))) : bool :=
+  match m, o with
+  | Err, None => true
+  | Ok (a, b), Some (a', b') => split_eqb a a' && split_eqb b b'
+  | _, _ => false
+  end.
+
 Definition check (c : case) : bool :=
   match c with
   | CWindow k cf o => agree (window_split k cf) (window_cutoffs cf) o
@@ -45,6 +60,10 @@ Definition check (c : case) : bool :=
   | CTtsSize n te tr o => agree2 (tts_positions n te tr) o
   | CTtsFh n fh o => agree2 (tts_fh_relative n fh) o
   | CTtsFhAbs lo n fh o => agree2 (tts_fh_absolute lo n fh) o
+  | CCutoffAny n fh w cs o => agree (cutoff_split_any n fh w cs) (csort cs) o
+  | CTtsFhX lo n rel fh o =>
+      agree4 (if rel then tts_fh_relative_X lo n fh else tts_fh_absolute_X lo n fh) o
+  | CTts lo n fh te tr o => agree2 (tts_dispatch lo n fh te tr) o
   end.
 
 Fixpoint mism (cs : list (Z * case)) : list Z :=
